@@ -70,6 +70,8 @@ func installHooks(s *Sim) {
 		owner := incByZKHost(cfg.Hostname)
 		dial := func(network, addr string, timeout time.Duration) (net.Conn, error) {
 			c := s.net.newConn(owner, srcHostOf(owner))
+			// a dial may fail any time before its timeout; never exactly on it (timer coincidences)
+			timeout -= time.Duration(1+s.h("dialjit", owner, fmt.Sprint(c.id))%700) * time.Microsecond
 			ctx, cancel := context.WithTimeout(context.Background(), timeout)
 			defer cancel()
 			r := s.submit(&call{kind: callZKDial, src: owner, dst: "zk", query: "<dial>", ctx: ctx, zkc: c})
@@ -195,15 +197,15 @@ func (s *Sim) writeConfig(host, inc string, n int, cli bool) (cfgPath, lockfile 
 	w("force_switchover: %v", c.ForceSwitchover)
 	w("manager_switchover: %v", c.ManagerSwitchover)
 	w("resetup_crashed_hosts: %v", c.ResetupCrashedHosts)
-	w("db_timeout: %s", dur(c.DBTimeoutMs))
-	w("db_lost_check_timeout: %s", dur(c.DBLostCheckTimeoutMs))
-	w("db_set_ro_timeout: %s", dur(c.DBSetRoTimeoutMs))
-	w("db_set_ro_force_timeout: %s", dur(c.DBSetRoForceTimeoutMs))
-	w("db_stop_slave_sql_thread_timeout: %s", dur(c.DBTimeoutMs*2))
+	w("db_timeout: %dus", c.DBTimeoutMs*1000+2477+off)
+	w("db_lost_check_timeout: %dus", c.DBLostCheckTimeoutMs*1000+3571+off)
+	w("db_set_ro_timeout: %dus", c.DBSetRoTimeoutMs*1000+4813+off)
+	w("db_set_ro_force_timeout: %dus", c.DBSetRoForceTimeoutMs*1000+5651+off)
+	w("db_stop_slave_sql_thread_timeout: %dus", c.DBTimeoutMs*2000+6373+off)
 	w("switchover_timeout: %s", dur(c.SwitchoverTimeoutMs))
 	w("switchover_max_attempts: %d", c.SwitchoverMaxAttempts)
-	w("slave_catch_up_timeout: %s", dur(c.SlaveCatchUpTimeoutMs))
-	w("wait_start_replication_timeout: %s", dur(c.WaitReplStartMs))
+	w("slave_catch_up_timeout: %dus", c.SlaveCatchUpTimeoutMs*1000+9341+off)
+	w("wait_start_replication_timeout: %dus", c.WaitReplStartMs*1000+8713+off)
 	w("disable_set_readonly_on_lost: %v", c.DisableSetROOnLost)
 	w("disable_semi_sync_replication_on_maintenance: %v", c.DisableSSOnMaint)
 	w("replication_repair_aggressive_mode: %v", c.AggressiveRepair)
@@ -246,10 +248,12 @@ func (s *Sim) writeConfig(host, inc string, n int, cli bool) (cfgPath, lockfile 
 	w("exclude_users: [ \"%s\" ]", "mysync-admin")
 	w("test_disk_usage_file: %s/disk_usage", hd)
 	w("test_filesystem_readonly_file: %s/fs_readonly", hd)
-	w("dcs_wait_timeout: %s", dur(2*c.SessionTimeoutMs+1000))
+	w("dcs_wait_timeout: %dus", (2*c.SessionTimeoutMs+1000)*1000+7919+off)
 	w("zookeeper:")
 	w("  hostname: %s", zkHost)
-	w("  session_timeout: %s", dur(c.SessionTimeoutMs))
+	// non-round values: the zk client derives 1s / (2/3)T / (1/3)T timers from it and exact
+	// coincidences of two timers inside one process have no controllable order
+	w("  session_timeout: %dus", c.SessionTimeoutMs*1000+19387+off*101)
 	w("  lock_held_ttl: %s", dur(c.LockHeldTTLMs))
 	w("  namespace: /test")
 	w("  hosts: [ \"zk1:2181\", \"zk2:2181\", \"zk3:2181\" ]")
